@@ -811,11 +811,26 @@ fn crop_line_by_cols(line: &str, left_col_1: usize, right_col_1: usize) -> (Stri
         );
     }
 
-    // If the crop window starts at/after EOL for this line, keep it intact.
-    // This avoids turning short context lines into just "…".
+    // If the crop window starts at/after EOL for this line, show the beginning of the line
+    // instead (this avoids turning short context lines into just "…"), but never more than
+    // the width of the window: a long context line must not defeat the cropping.
     if left_col_1 >= line_len_cols.saturating_add(1) {
+        let width = right_col_1.saturating_sub(left_col_1).saturating_add(1);
+        if line_len_cols <= width {
+            return (
+                line.to_owned(),
+                LineCrop {
+                    start_byte: 0,
+                    prefix_bytes: 0,
+                },
+            );
+        }
+        let end_byte = col_to_byte_offset_in_line(line, width + 1).unwrap_or(line.len());
+        let mut out = String::with_capacity(end_byte + 3);
+        out.push_str(&line[..end_byte]);
+        out.push('…');
         return (
-            line.to_owned(),
+            out,
             LineCrop {
                 start_byte: 0,
                 prefix_bytes: 0,
